@@ -15,11 +15,11 @@ import (
 func init() {
 	register(&Rule{ID: "R-DUPBOOK", Min: 2, Run: ruleDupBook,
 		Doc: "in the binary operation table the per-step tags that the duplicate-match test reads (lhT/rhT, lhSampleID/rhSampleID) are recorded for every matched sample: their stores are not control dependent on the result of the comparison operation (filtering happens after matching)"})
-	register(&Rule{ID: "R-STEPBOUND", Min: 5, Run: ruleStepBound,
+	register(&Rule{ID: "R-STEPBOUND", Min: 3, Run: ruleStepBound,
 		Doc: "in every operator that owns a window end (field maxt), each loop that appends step vectors to a batch has an exit condition that compares the step cursor with maxt: no step vector is produced past the end of the window, whatever the batch size"})
 	register(&Rule{ID: "R-MATCHEQ", Min: 2, Run: ruleMatchEq,
 		Doc: "every function of the logical plan that decides equality of two label matchers by comparing their Value fields also compares their Type (and Name): a matcher is identified by (type, name, value)"})
-	register(&Rule{ID: "R-PUSHDOWN", Min: 10, Run: rulePushdown,
+	register(&Rule{ID: "R-PUSHDOWN", Min: 8, Run: rulePushdown,
 		Doc: "traverseBottomUp continues (returns something other than the constant true) only with the verdict of the transform callback or of a recursive traversal: node kinds it does not know (literals, subqueries, ...) stop the push-down, so a parent is never distributed on the strength of an unexamined child"})
 	register(&Rule{ID: "R-SHARDCOPY", Min: 1, Run: ruleShardCopy,
 		Doc: "elements of a []SignedSeries are written only through a slice allocated in the same function (make/append onto nil or a fresh value): the series list cached in a selector is shared by all shards and by filtered selectors and is never renumbered in place"})
@@ -27,7 +27,7 @@ func init() {
 		Doc: "where a goroutine both closes a channel by defer and reports a recovered panic by sending on that channel, the close is registered first (it runs last): the report is never sent on a closed channel"})
 	register(&Rule{ID: "R-CANCELEARLY", Min: 1, Run: ruleCancelEarly,
 		Doc: "in Exec the per-execution cancel function is stored into the query before the first call into the physical plan (Series/Next): Cancel/Close from another goroutine take effect however early they arrive"})
-	register(&Rule{ID: "R-CHANCAP", Min: 5, Run: ruleChanCap,
+	register(&Rule{ID: "R-CHANCAP", Min: 3, Run: ruleChanCap,
 		Doc: "every error channel of the repo is created with a capacity (never unbuffered): its goroutines send without select and their receiver may return early, so an unbuffered send would park the goroutine forever"})
 	register(&Rule{ID: "R-ERRPROP", Min: 40, Run: ruleErrProp,
 		Doc: "every error returned by a call in engine, execution/... and logicalplan is consumed: returned, stored, sent or passed on. An error that is only compared with nil, or never looked at, is dropped (the allow-list is exactly: Log, deferred Close, hash Write/WriteString)"})
@@ -147,24 +147,20 @@ func ruleStepBound(p *core.Program) []core.Obligation {
 			}
 			k++
 			key := fmt.Sprintf("%s.Next batch loop #%d is bounded by maxt", recv.Obj().Name(), k)
-			// innermost loop containing b: find a header h (dominates b, b reaches h) with an If comparing against maxt whose one successor leaves the loop
+			// some loop containing b has an exit edge whose condition compares against maxt
 			bounded := false
-			for _, h := range fn.Blocks {
-				if !core.BlockDominates(h, b) || !(core.Reaches(b, h)) {
+			for _, body := range core.LoopBodies(fn) {
+				if !body[b] {
 					continue
 				}
-				// blocks of this loop that end in an If with an exit edge
-				for _, x := range fn.Blocks {
-					if !core.BlockDominates(h, x) || !(x == h || core.Reaches(x, h)) {
-						continue
-					}
+				for x := range body {
 					iff := core.IfOf(x)
 					if iff == nil {
 						continue
 					}
 					exits := false
 					for _, s := range x.Succs {
-						if !(s == h || core.Reaches(s, h)) || !core.BlockDominates(h, s) {
+						if !body[s] {
 							exits = true
 						}
 					}
